@@ -16,13 +16,23 @@ from .inline import _max_id, _pats_of
 MAX_TRIPS = 4
 
 
-def _trip_values(it):
+def _trip_values(it, body=None, muts=None):
+    from .forward import _pure
     it = T.peel(it)
     if it.get("k") == "mcall" and it["name"] in ("into_iter", "iter") and not it["args"]:
         it = T.peel_ref(it["recv"])
+    if body is not None and T.local_of(it) is not None and T.local_of(it) not in muts:
+        # `let parts = [a, b, c]; for part in parts { .. }`: an immutable array local that only the loop reads
+        lid = T.local_of(it)
+        lets = [s_ for s_ in T.nodes(body["tree"], "let") if s_["pat"].get("p") == "bind" and s_["pat"]["id"] == lid and s_.get("init") is not None]
+        uses = [n for n in T.nodes(body["tree"], "path") if T.local_of(n) == lid]
+        if len(lets) == 1 and len(uses) == 1 and T.peel(lets[0]["init"]).get("k") == "array":
+            it = T.peel(lets[0]["init"])
+            if 0 < len(it.get("es", [])) <= MAX_TRIPS and all(T.peel(v).get("k") == "lit" or _pure(T.peel(v), muts) for v in it["es"]):
+                lets[0]["dead_after_unroll"] = True     # pure elements, no reader left once the loop is written out
     if it.get("k") == "array":
         vals = [T.peel(e) for e in it.get("es", [])]
-        if 0 < len(vals) <= MAX_TRIPS and all(v.get("k") == "lit" for v in vals):
+        if 0 < len(vals) <= MAX_TRIPS and all(v.get("k") == "lit" or (muts is not None and _pure(v, muts)) for v in vals):
             return vals
         return None
     if it.get("k") == "struct" and (it.get("res") or {}).get("path") == "std::ops::Range":
@@ -93,13 +103,16 @@ def _fresh_copy(body, pat, next_id):
 
 
 def unroll_body(body):
+    from .forward import _mutables
     done = 0
     changed = True
     while changed:
         changed = False
         for n in list(T.nodes(body["tree"], "for")):
-            vals = _trip_values(n["iter"])
+            vals = _trip_values(n["iter"], body, _mutables(body))
             if vals is None or _own_jumps(n["body"]):
+                for s_ in T.nodes(body["tree"], "let"):
+                    s_.pop("dead_after_unroll", None)
                 continue
             nid = _max_id(body["tree"])
             for p in body.get("params", []):
@@ -120,6 +133,8 @@ def unroll_body(body):
                       "block": {"k": "block", "sp": keep.get("sp"), "stmts": stmts, "tail": None}})
             done += 1
             changed = True
+            for blk in T.nodes(body["tree"], "block"):
+                blk["stmts"] = [s_ for s_ in blk.get("stmts", []) if not (s_.get("k") == "let" and s_.get("dead_after_unroll"))]
             break
     return done
 
